@@ -22,11 +22,20 @@ open ChibiVerif.Props.C15
 
 def intTy : ObjTy := ⟨4, 4, false, false⟩
 
+/-- evaluate a closed statement for each of the sixteen rule sets -/
+local macro "all_rules" : tactic =>
+  `(tactic| (intro r; obtain ⟨a, b, c, d⟩ := r; cases a <;> cases b <;> cases c <;> cases d <;> decide))
+
 /-- model and Spec disagree on the symbol table of `ds` (both `-fcommon` settings checked separately) -/
-def differs (fcommon : Bool) (ds : List Decl) : Bool :=
+def differs [Rules] (fcommon : Bool) (ds : List Decl) : Bool :=
   holdsOn (parseUnit ds) (fun gs =>
     !((objectSymbols fcommon gs).all (fun e => (symbols fcommon ds).contains e) &&
       (symbols fcommon ds).all (fun e => (objectSymbols fcommon gs).contains e)))
+
+/-! Each witness below is a VALID unit inside the region of its finding.  The status theorems are stated for every rule
+set: the model differs from the Spec on the witness exactly when the rule that repairs the finding is off.  So the file
+keeps checking when a repair lands in /repo (`Rules.asBuilt` is regenerated from the source), and it records both facts:
+the finding of the code without the repair, and the agreement of the repaired code. -/
 
 /-! ### C15-inline-flags-frozen -/
 
@@ -38,8 +47,10 @@ theorem C15_finding_inline_flags_frozen :
     valid wInlineFrozen = true ∧ inlineFrozenFinding wInlineFrozen = true ∧
     -- C11 6.7.4p7: an external definition of f
     symbols true wInlineFrozen = [⟨.named 0, .global, .text, none, 0⟩] ∧
-    -- chibicc: nothing
-    holdsOn (parseUnit wInlineFrozen) (fun gs => objectSymbols true gs == []) = true := by decide
+    -- chibicc without the repair: nothing; with it: the Spec's table
+    (∀ r : Rules, holdsOn (@parseUnit r wInlineFrozen) (fun gs =>
+      objectSymbols true gs == (if r.flagsFollow then [⟨.named 0, .global, .text, none, 0⟩] else [])) = true) :=
+  ⟨by decide, by decide, by decide, by all_rules⟩
 
 /-! ### C15-static-local-in-dead-inline -/
 
@@ -53,11 +64,13 @@ def wDeadStaticLocal : List Decl :=
 theorem C15_finding_static_local_in_dead_inline :
     valid wDeadStaticLocal = true ∧ deadStaticLocalRegion wDeadStaticLocal = true ∧
     deadStaticLocalVisibleRegion wDeadStaticLocal = true ∧
-    -- the always-emitted anonymous datum mentions f, f is not emitted: `f` becomes an undefined global symbol
-    holdsOn (parseUnit wDeadStaticLocal) (fun gs =>
-      (objectSymbols true gs).contains ⟨.named 0, .global, .undef, none, 0⟩ &&
-      (emittedUses gs).contains (.named 0) && !liveFn gs 0) = true ∧
-    symbols true wDeadStaticLocal = [⟨.named 2, .global, .text, none, 0⟩] := by decide
+    symbols true wDeadStaticLocal = [⟨.named 2, .global, .text, none, 0⟩] ∧
+    -- without the repair the always-emitted anonymous datum mentions f, f is not emitted: `f` becomes an undefined
+    -- global symbol; with it the datum is not printed
+    (∀ r : Rules, holdsOn (@parseUnit r wDeadStaticLocal) (fun gs =>
+      ((objectSymbols true gs).contains ⟨.named 0, .global, .undef, none, 0⟩ == !r.ownedData) &&
+      ((emittedUses gs).contains (.named 0) == !r.ownedData) && !liveFn gs 0) = true) :=
+  ⟨by decide, by decide, by decide, by decide, by all_rules⟩
 
 /-! ### C15-tentative-composite-size -/
 
@@ -68,13 +81,14 @@ def wCompositeSize : List Decl :=
 theorem C15_finding_tentative_composite_size :
     valid wCompositeSize = true ∧ compositeSizeRegion wCompositeSize = true ∧
     symbols false wCompositeSize = [⟨.named 0, .global, .bss, some 20, 16⟩] ∧
-    holdsOn (parseUnit wCompositeSize) (fun gs => objectSymbols false gs == [⟨.named 0, .global, .bss, some 4, 4⟩]) = true := by
-  decide
+    (∀ r : Rules, holdsOn (@parseUnit r wCompositeSize) (fun gs => objectSymbols false gs ==
+      (if r.compositeFromDecls then [⟨.named 0, .global, .bss, some 20, 16⟩] else [⟨.named 0, .global, .bss, some 4, 4⟩])) = true) :=
+  ⟨by decide, by decide, by decide, by all_rules⟩
 
 /-- the repaired part (`fix:` D10): `int a[]; int a[5];` has the composite size -/
-theorem C15_fixed_composite_of_tentatives :
-    holdsOn (parseUnit [ .obj 0 false false false ⟨4, 4, true, true⟩ none, .obj 0 false false false ⟨20, 4, true, false⟩ none ])
-      (fun gs => objectSymbols false gs == [⟨.named 0, .global, .bss, some 20, 16⟩]) = true := by decide
+theorem C15_fixed_composite_of_tentatives : ∀ r : Rules,
+    holdsOn (@parseUnit r [ .obj 0 false false false ⟨4, 4, true, true⟩ none, .obj 0 false false false ⟨20, 4, true, false⟩ none ])
+      (fun gs => objectSymbols false gs == [⟨.named 0, .global, .bss, some 20, 16⟩]) = true := by all_rules
 
 /-! ### C15-extern-init-after-static -/
 
@@ -85,42 +99,51 @@ def wExternInit : List Decl :=
 theorem C15_finding_extern_init_after_static :
     valid wExternInit = true ∧ externInitAfterStaticRegion wExternInit = true ∧
     symbols true wExternInit = [⟨.named 0, .local, .data, some 4, 4⟩] ∧
-    holdsOn (parseUnit wExternInit) (fun gs => objectSymbols true gs == [⟨.named 0, .global, .data, some 4, 4⟩]) = true := by
-  decide
+    (∀ r : Rules, holdsOn (@parseUnit r wExternInit) (fun gs => objectSymbols true gs ==
+      [⟨.named 0, if r.externInherits then .local else .global, .data, some 4, 4⟩]) = true) :=
+  ⟨by decide, by decide, by decide, by all_rules⟩
 
-/-! ### why `C15_symbols_partial` carries the side condition `symbolsSide`
+/-! ### what `Spec.valid` excludes beyond the obvious: units that are not C
 
-These are not findings about chibicc: they are units that `Spec.valid` admits although they are not C, and on
-which the full statement fails for that reason alone. -/
+`valid` used to admit these; the symbol-table theorem carried them as a side condition (`symbolsSide`).  They are now part
+of `valid` itself (identifiers are declared at the point of use, C11 6.2.1p7; compatible types, 6.2.7p1/p2); checklib/C15.py
+requires that gcc rejects each of them and that no generated unit gcc accepts is invalid. -/
 
-/-- `int main(void){ (void)&x; extern int x; }` (main=0, x=1): `refsDeclared` lets the block-scope `extern` count for
-    the whole body; chibicc - like every C compiler - rejects the use before the declaration ("undefined variable"),
-    so there is no output whose symbol table could be compared -/
+/-- `int main(void){ (void)&x; extern int x; }` (main=0, x=1): use before the block-scope declaration; chibicc - like every
+    C compiler - rejects it ("undefined variable"), so there is no output whose symbol table could be compared -/
 def wUseBeforeExtern : List Decl :=
   [ .func 0 4 false false false (some [.ref (.obj 1), .externObj 1 false intTy]) ]
 
 theorem C15_side_use_before_block_extern :
-    valid wUseBeforeExtern = true ∧ InScope wUseBeforeExtern = true ∧ refsOrdered wUseBeforeExtern [] [] = false ∧
-    (match parseUnit wUseBeforeExtern with | .error (.undeclared (.obj 1)) => true | _ => false) = true := by decide
+    valid wUseBeforeExtern = false ∧ refsOrdered wUseBeforeExtern [] [] = false ∧
+    (∀ r : Rules, (match @parseUnit r wUseBeforeExtern with | .error (.undeclared (.obj 1)) => true | _ => false) = true) :=
+  ⟨by decide, by decide, by all_rules⟩
 
 /-- `int a[]; struct { int x, y; } a[];` (a=0): two tentative definitions that leave the length open and disagree on
-    the element size (not compatible types; gcc: "conflicting types").  The Spec takes the first element size, the
-    completed array of chibicc the last. -/
+    the element size (not compatible types; gcc: "conflicting types") -/
 def wElemSize : List Decl :=
   [ .obj 0 false false false ⟨4, 4, true, true⟩ none, .obj 0 false false false ⟨8, 4, true, true⟩ none ]
 
 theorem C15_side_element_size :
-    valid wElemSize = true ∧ InScope wElemSize = true ∧ symbolsSide wElemSize = false ∧ differs false wElemSize = true := by
-  decide
+    valid wElemSize = false ∧ (∀ r : Rules, @differs r false wElemSize = true) := ⟨by decide, by all_rules⟩
 
-/-- an object type with alignment 0 (no C type has it): the Spec's `objAlign` starts its maximum at 1 -/
+/-- an object type with alignment 0 (no C type has it) -/
 def wAlignZero : List Decl := [ .obj 0 false false false ⟨4, 0, false, false⟩ (some []) ]
 
 theorem C15_side_alignment_zero :
-    valid wAlignZero = true ∧ InScope wAlignZero = true ∧ symbolsSide wAlignZero = false ∧ differs true wAlignZero = true := by
-  decide
+    valid wAlignZero = false ∧ (∀ r : Rules, @differs r true wAlignZero = true) := ⟨by decide, by all_rules⟩
 
-/-! ### the narrowed region -/
+/-- `void f(void){ extern int c[7]; }  int c[];` (f=0, c=1): the block-scope declaration states a length the file-scope
+    object (one element, 6.9.2p5) does not have (6.2.7p2: undefined; gcc rejects the same two declarations in the other
+    order).  The repaired `scan_globals` would complete the array from it. -/
+def wBlockExternLength : List Decl :=
+  [ .func 0 1 false false false (some [.externObj 1 false ⟨28, 4, true, false⟩]), .obj 1 false false false ⟨4, 4, true, true⟩ none ]
+
+theorem C15_side_block_extern_length :
+    valid wBlockExternLength = false ∧ blockExternsAgree wBlockExternLength = false ∧
+    (∀ r : Rules, @differs r false wBlockExternLength = r.compositeFromDecls) := ⟨by decide, by decide, by all_rules⟩
+
+/-! ### the narrowed regions -/
 
 /-- `static int f(void); static inline int f(void);` (never defined): the C11 class (`localIfNeeded`) differs from
     the class of the first declaration (`localAlways`), so the unit lies in `flagsFrozenRegion`; but `f` is not
@@ -129,7 +152,7 @@ def wFrozenDeclOnly : List Decl := [ .func 0 1 true false false none, .func 0 1 
 
 theorem C15_region_frozen_narrowed :
     flagsFrozenRegion wFrozenDeclOnly = true ∧ flagsFrozenDefRegion wFrozenDeclOnly = false ∧
-    InScope wFrozenDeclOnly = true ∧ symbolsSide wFrozenDeclOnly = true := by decide
+    (∀ r : Rules, @InScope r wFrozenDeclOnly = true) := ⟨by decide, by decide, by all_rules⟩
 
 /-- `int x; static inline int g(void){ static int *p = &x; }  int main(void){ }` (x=0, g=1, main=2): the static local of
     the dead function names an object the unit defines anyway.  Inside `deadStaticLocalRegion`, outside the narrowed
@@ -142,29 +165,43 @@ def wDeadStaticLocalHarmless : List Decl :=
 
 theorem C15_region_dead_static_local_narrowed :
     deadStaticLocalRegion wDeadStaticLocalHarmless = true ∧ deadStaticLocalVisibleRegion wDeadStaticLocalHarmless = false ∧
-    InScope wDeadStaticLocalHarmless = true ∧ symbolsSide wDeadStaticLocalHarmless = true ∧
-    differs true wDeadStaticLocalHarmless = false ∧ differs false wDeadStaticLocalHarmless = false := by decide
+    (∀ r : Rules, @InScope r wDeadStaticLocalHarmless = true ∧
+      @differs r true wDeadStaticLocalHarmless = false ∧ @differs r false wDeadStaticLocalHarmless = false) :=
+  ⟨by decide, by decide, by all_rules⟩
 
-/-- every witness of a known finding of the symbol table lies outside `InScope` -/
-theorem C15_findings_outside_scope :
-    InScope wInlineFrozen = false ∧ InScope wDeadStaticLocal = false ∧ InScope wCompositeSize = false ∧
-    InScope wExternInit = false := by decide
+/-- every witness of a known finding of the symbol table lies outside `InScope` exactly as long as its rule is off -/
+theorem C15_findings_outside_scope : ∀ r : Rules,
+    @InScope r wInlineFrozen = r.flagsFollow ∧ @InScope r wDeadStaticLocal = r.ownedData ∧
+    @InScope r wCompositeSize = r.compositeFromDecls ∧ @InScope r wExternInit = r.externInherits := by all_rules
 
 /-! ### consequence for the full statement -/
 
-/-- the full symbol-table statement does not hold: `wInlineFrozen` is a valid unit on which the model's
-    table (empty) differs from the Spec's (a global definition of f) -/
-theorem C15_finding_symbols : ¬ C15_symbols_Statement := by
+/-- a valid unit on which model and Spec disagree refutes the full statement -/
+theorem refutes (r : Rules) {fc : Bool} {w : List Decl} (hv : valid w = true) (hd : @differs r fc w = true) :
+    ¬ @C15_symbols_Statement r := by
   intro h
-  obtain ⟨gs, hp, hiff⟩ := h true wInlineFrozen (by decide)
-  have hmem : (⟨.named 0, .global, .text, none, 0⟩ : SymEntry) ∈ symbols true wInlineFrozen := by decide
-  have := (hiff _).mpr hmem
-  have hgs : parseUnit wInlineFrozen = .ok gs := hp
-  have hempty : holdsOn (parseUnit wInlineFrozen) (fun gs => objectSymbols true gs == []) = true := by decide
-  rw [hgs] at hempty
-  simp only [holdsOn, beq_iff_eq] at hempty
-  rw [hempty] at this
-  cases this
+  obtain ⟨gs, hp, hiff⟩ := h fc w hv
+  unfold differs at hd
+  rw [hp] at hd
+  simp only [holdsOn, Bool.not_eq_true', Bool.and_eq_false_iff, List.all_eq_false, List.contains_eq_mem,
+    decide_eq_true_eq] at hd
+  rcases hd with ⟨e, he, hne⟩ | ⟨e, he, hne⟩
+  · exact hne ((hiff e).mp he)
+  · exact hne ((hiff e).mpr he)
+
+/-- **the full symbol-table statement fails for every rule set that lacks one of the four repairs** (and holds for the
+    one that has them all: `Props.C15.C15_symbols_repaired`) -/
+theorem C15_finding_symbols : ∀ r : Rules,
+    (r.externInherits && r.flagsFollow && r.compositeFromDecls && r.ownedData) = false → ¬ @C15_symbols_Statement r := by
+  intro r
+  obtain ⟨a, b, c, d⟩ := r
+  cases a <;> cases b <;> cases c <;> cases d <;> intro h
+  all_goals first
+    | exact absurd h (by decide)
+    | exact refutes _ (fc := true) (w := wExternInit) (by decide) (by decide)
+    | exact refutes _ (fc := true) (w := wInlineFrozen) (by decide) (by decide)
+    | exact refutes _ (fc := false) (w := wCompositeSize) (by decide) (by decide)
+    | exact refutes _ (fc := true) (w := wDeadStaticLocal) (by decide) (by decide)
 
 /-! ### C15-extern-tls-local-exec -/
 
@@ -190,29 +227,35 @@ theorem C15_finding_addr_table (hle : addrForm wExternTls = some .tlsLE) : ¬ C1
   revert hv
   decide
 
-/-! ### repaired defects: the model of the code as it is now gives the C11 answer -/
+/-! ### repaired defects: the model of the code gives the C11 answer (for every rule set) -/
 
 /-- D1: `int x; int x;` leaves one definition (was: none) -/
-theorem C15_fixed_two_tentatives :
-    holdsOn (parseUnit [ .obj 0 false false false intTy none, .obj 0 false false false intTy none ])
+theorem C15_fixed_two_tentatives : ∀ r : Rules,
+    holdsOn (@parseUnit r [ .obj 0 false false false intTy none, .obj 0 false false false intTy none ])
       (fun gs => objectSymbols true gs == [⟨.named 0, .global, .common, some 4, 4⟩] &&
-                 objectSymbols false gs == [⟨.named 0, .global, .bss, some 4, 4⟩]) = true := by decide
+                 objectSymbols false gs == [⟨.named 0, .global, .bss, some 4, 4⟩]) = true := by all_rules
 
 /-- D3: `_Thread_local int t; _Thread_local int t = 1;` is one definition in .tdata (was: two labels) -/
-theorem C15_fixed_tls_tentative :
-    holdsOn (parseUnit [ .obj 0 false false true intTy none, .obj 0 false false true intTy (some []) ])
-      (fun gs => objectSymbols true gs == [⟨.named 0, .global, .tdata, some 4, 4⟩]) = true := by decide
+theorem C15_fixed_tls_tentative : ∀ r : Rules,
+    holdsOn (@parseUnit r [ .obj 0 false false true intTy none, .obj 0 false false true intTy (some []) ])
+      (fun gs => objectSymbols true gs == [⟨.named 0, .global, .tdata, some 4, 4⟩]) = true := by all_rules
 
 /-- D7: `extern int e = 5;` is a definition -/
-theorem C15_fixed_extern_initializer :
-    holdsOn (parseUnit [ .obj 0 false true false intTy (some []) ])
-      (fun gs => objectSymbols true gs == [⟨.named 0, .global, .data, some 4, 4⟩]) = true := by decide
+theorem C15_fixed_extern_initializer : ∀ r : Rules,
+    holdsOn (@parseUnit r [ .obj 0 false true false intTy (some []) ])
+      (fun gs => objectSymbols true gs == [⟨.named 0, .global, .data, some 4, 4⟩]) = true := by all_rules
 
 /-- the first C15 fix (is_root recomputed on redeclaration):
     `static inline int f(void); void *p = f; static inline int f(void){ }` emits f -/
-theorem C15_fixed_root_survives_redeclaration :
-    holdsOn (parseUnit [ .func 0 1 true false true none, .obj 1 false false false ⟨8, 8, false, false⟩ (some [.ref (.fn 0)]),
+theorem C15_fixed_root_survives_redeclaration : ∀ r : Rules,
+    holdsOn (@parseUnit r [ .func 0 1 true false true none, .obj 1 false false false ⟨8, 8, false, false⟩ (some [.ref (.fn 0)]),
                          .func 0 1 true false true (some []) ])
-      (fun gs => liveFn gs 0 && (emitText gs).map (·.sym) == [.named 0]) = true := by decide
+      (fun gs => liveFn gs 0 && (emitText gs).map (·.sym) == [.named 0]) = true := by all_rules
+
+/-- the mirror image of C15-inline-flags-frozen (harmless): `static int f(void); static inline int f(void){ }` - the
+    unreferenced function is emitted by the code that takes the flags from the first declaration, dropped by the repaired one -/
+theorem C15_mirror_static_then_inline : ∀ r : Rules,
+    holdsOn (@parseUnit r [ .func 0 1 true false false none, .func 0 1 true false true (some []) ])
+      (fun gs => (emitText gs).map (·.sym) == (if r.flagsFollow then [] else [.named 0])) = true := by all_rules
 
 end ChibiVerif.Findings.C15
